@@ -31,6 +31,11 @@ type Resp struct {
 	Headers []HeaderKV
 	Body    []byte
 	Interim bool // 1xx
+	// BodyDespiteHead: the response answers HEAD, is an error (>= 400) with "Connection: close",
+	// and is followed by exactly Content-Length bytes. A client that sent HEAD does not read a
+	// body and, told to close, discards what follows: the statement is silent on this, the
+	// caller counts it as unspecified.
+	BodyDespiteHead bool
 }
 
 // ParseErr describes why the byte stream is not a well-formed response sequence.
@@ -212,6 +217,11 @@ func parseOne(b []byte, off int, head bool) (Resp, int, *ParseErr) {
 		}
 		if r.Status == 204 && hasTE {
 			return r, off, &ParseErr{Class: "transfer-encoding-on-204", Where: "framing", Off: off}
+		}
+		if head && r.Status >= 400 && connClose && cl > 0 && len(b)-pos == cl {
+			r.BodyDespiteHead = true
+			r.Body = b[pos:]
+			return r, len(b), nil
 		}
 		return r, pos, nil
 	}
